@@ -22,7 +22,8 @@ Record case := {
   c_incoming : bool; c_stressed : bool; c_processed : bool; c_kept : bool; c_full : bool;
   c_remote : list string;    (* trace ids owned by the other node *)
   c_peer : string;           (* its address *)
-  c_events : list ecase
+  c_events : list ecase;
+  c_deliv : list deliv       (* delivery scenario run on the real DirectTransmission (usually none) *)
 }.
 
 Definition node_of (c : case) : node :=
@@ -98,4 +99,5 @@ Definition event_monitor (c : case) (e : ecase) : codes :=
   end.
 
 Definition check (c : case) : codes :=
-  flat_map (fun e => (if model_agrees c e then [] else [code_mismatch]) ++ event_monitor c e) (c_events c).
+  flat_map (fun e => (if model_agrees c e then [] else [code_mismatch]) ++ event_monitor c e) (c_events c)
+  ++ flat_map deliv_codes (c_deliv c).
